@@ -108,9 +108,13 @@ Scan(s, i, acc) ==
           ELSE [out |-> acc, res |-> Final(s, c)]
 
 (* unary Connect: the whole body is one message; a clean cut cannot be seen (don't care) *)
+NonOK(s) == "status" \in DOMAIN s /\ s.status # 200
 RawExpect(s) ==
   LET f == s.frames[1] IN
-  IF s.limit > 0 /\ Avail(s) > s.limit THEN [out |-> <<>>, res |-> {"limit", "transport"} \cup (CtxTails \cap {s.tail})]
+  \* a non-200 unary Connect response is an error whatever its body holds (C06 decides which); the body is still
+  \* peer-controlled data read under the same limit (C09: Bounded)
+  IF NonOK(s) THEN [out |-> <<>>, res |-> {"transport"}]
+  ELSE IF s.limit > 0 /\ Avail(s) > s.limit THEN [out |-> <<>>, res |-> {"limit", "transport"} \cup (CtxTails \cap {s.tail})]
   ELSE IF s.tail \in CtxTails THEN [out |-> <<>>, res |-> {s.tail}]
   ELSE IF s.tail # "eof" THEN [out |-> <<>>, res |-> {"transport"}]
   ELSE IF Avail(s) < f.len THEN [out |-> <<>>, res |-> {"dontcare"}]
